@@ -54,6 +54,8 @@ Init ==
     relOwed |-> 0,         \* releases/drops of receipts whose PUBREL is still due
     relIds  |-> {},        \* v5: ids whose PUBREL is due
     pubrels |-> {},        \* ids for which a PUBREL was written
+    suspects |-> {},       \* identifiers refused as "in use" although the monitor has not seen them in use: judged at the
+                           \* next quiescence (what is written during a command is observed at its end)
     orphans |-> 0          \* QoS 2 send futures dropped before they produced a receipt: the
                            \* library releases those publishes on its own
   ]
@@ -109,7 +111,9 @@ OnIn(m, ev) ==
     [] ev.k = "DISCONNECT" -> [m EXCEPT !.term = TRUE]
     [] OTHER -> m
 
-OnOut(m, ev) ==
+MarkBusy(m, id) == [m EXCEPT !.suspects = @ \ {id}, !.snd = [k \in 1..Len(@) |-> IF @[k].st = "live" THEN [@[k] EXCEPT !.busy = @ \cup {id}] ELSE @[k]]]
+OnOut(m0, ev) ==
+  LET m == IF ev.k \in {"PUBLISH", "SUBSCRIBE", "UNSUBSCRIBE"} THEN MarkBusy(m0, ev.id) ELSE m0 IN
   CASE ev.k = "CONNACK" -> [m EXCEPT !.est = (ev.r = 0)]
     [] ev.k = "PUBLISH" /\ ev.q > 0 ->
          LET m1 == [m EXCEPT !.owed = Append(@, [id |-> ev.id,
@@ -149,7 +153,10 @@ OnOut(m, ev) ==
 OnSendCall(m, ev) ==
   LET kind == IF ev.k = "chunk" THEN "chunk" ELSE ev.k
       i == SndIdx(m, ev.s)
-      rec == [s |-> ev.s, kind |-> kind, st |-> "live", id |-> 0]
+      \* cid: identifier chosen by the caller (0 = automatic); busy: the identifiers that were in use on the wire at
+      \* some moment since the call (the library may decide "in use" at the call or at a later poll, and an
+      \* automatic identifier may collide with one the caller of another send chose)
+      rec == [s |-> ev.s, kind |-> kind, st |-> "live", id |-> 0, cid |-> ev.id, busy |-> m.inuse]
       m1 == IF i = 0 THEN [m EXCEPT !.snd = Append(@, rec)] ELSE [m EXCEPT !.snd[i] = rec]
   IN IF ev.k = "q1nb" THEN [m1 EXCEPT !.noblock = TRUE] ELSE m1
 
@@ -157,7 +164,7 @@ OnSendCall(m, ev) ==
 OnRelease(m, ev) ==
   LET i == SndIdx(m, ev.s)
       rid == IF i > 0 THEN m.snd[i].id ELSE 0
-      rec == [s |-> ev.n, kind |-> "rel", st |-> "live", id |-> rid]
+      rec == [s |-> ev.n, kind |-> "rel", st |-> "live", id |-> rid, cid |-> 0, busy |-> {}]
       j == SndIdx(m, ev.n)
       m1 == IF j = 0 THEN [m EXCEPT !.snd = Append(@, rec)] ELSE [m EXCEPT !.snd[j] = rec]
   IN [m1 EXCEPT !.relOwed = @ + 1, !.relIds = IF rid > 0 THEN @ \cup {rid} ELSE @]
@@ -190,6 +197,8 @@ OnSendDone(m, ev) ==
                  IN IF m.ver = 5 /\ kind \in {"q1", "stream1", "q2", "sub", "unsub"} /\ ev.r # a.r
                       THEN Fail(m1, "C06:returned-contents-differ-from-acknowledgement")
                       ELSE m1
+  ELSE IF ev.k = "PacketIdInUse" /\ Healthy(m) /\ ev.id > 0 /\ ev.id \notin m.inuse /\ ev.id \notin m.snd[i].busy
+     THEN [m0 EXCEPT !.suspects = @ \cup {ev.id}]
   ELSE IF ev.k = "UnexpectedRelease" /\ Healthy(m)
      THEN Fail(m0, "C14:release-refused")
   ELSE IF ev.k = "Disconnected" /\ Healthy(m) /\ kind # "chunk"
@@ -207,7 +216,12 @@ OnCtl(m, ev) ==
     [] OTHER -> m
 
 OnQuiet(m, ev) ==
-  IF m.needProto /\ ~m.stopProto
+  IF m.suspects # {} /\ Healthy(m)
+    THEN \* refused as "in use" although no exchange with that identifier was outstanding on the wire at any moment
+         \* between the call and the refusal (e.g. an earlier send with the same identifier failed locally and left
+         \* it reserved)
+         Fail([m EXCEPT !.suspects = {}], "C06:free-identifier-refused-as-in-use")
+  ELSE IF m.needProto /\ ~m.stopProto
     THEN Fail(m, "C06:bad-acknowledgement-not-answered-with-protocol-error")
   ELSE IF Healthy(m) /\ m.relOwed > 0
     THEN Fail(m, "C14:release-or-drop-wrote-no-pubrel")
